@@ -91,10 +91,10 @@ Lemma StronglySorted_app : forall (A : Type) (R : A -> A -> Prop) l1 l2,
   (forall x y, In x l1 -> In y l2 -> R x y) -> StronglySorted R (l1 ++ l2).
 Proof.
   induction l1 as [|a l1 IH]; intros l2 H1 H2 H; simpl; [assumption|].
-  inversion H1; subst. constructor.
+  inversion H1 as [|? ? Hs Hf]; subst. constructor.
   - apply IH; auto. intros; apply H; simpl; auto.
   - apply Forall_forall. intros x Hx. apply in_app_iff in Hx. destruct Hx as [Hx|Hx].
-    + rewrite Forall_forall in H4. auto.
+    + rewrite Forall_forall in Hf. auto.
     + apply H; simpl; auto.
 Qed.
 
@@ -256,10 +256,12 @@ Proof.
     + apply Z.ltb_lt in Em. split; [discriminate|]. intros (_ & _ & _ & H & _).
       specialize (H m eq_refl). lia.
     + apply Z.ltb_ge in Em. rewrite validate_coords_ok_iff. split.
-      * intros H. repeat split; auto. intros m' Hm'. inversion Hm'; subst. assumption.
+      * intros H. split; [reflexivity|]. split; [assumption|]. split; [assumption|].
+        split; [|assumption]. intros m' Hm'. inversion Hm'; subst. assumption.
       * intros (_ & _ & _ & _ & H). assumption.
   - rewrite validate_coords_ok_iff. split.
-    + intros H. repeat split; auto. intros m' Hm'. discriminate.
+    + intros H. split; [reflexivity|]. split; [assumption|]. split; [assumption|].
+      split; [|assumption]. intros m' Hm'. discriminate.
     + intros (_ & _ & _ & _ & H). assumption.
 Qed.
 
@@ -295,11 +297,13 @@ Proof.
     destruct (r_layout rg) as [ly|].
     + destruct (validate_layout dv ly) eqn:El.
       * apply validate_layout_ok_iff in El. rewrite validate_filling_ok_iff. split.
-        -- intros H. repeat split; auto; inversion H0; subst; auto.
+        -- intros H. split; [reflexivity|]. split; [assumption|]. split; [assumption|].
+           intros ly' Hly'. inversion Hly'; subst. split; assumption.
         -- intros (_ & _ & _ & H). destruct (H ly eq_refl). assumption.
       * split; [discriminate|]. intros (_ & _ & _ & H). destruct (H ly eq_refl) as [H1 _].
         apply validate_layout_ok_iff in H1. congruence.
-    + split; auto. intros _. repeat split; auto; discriminate.
+    + split; auto. intros _. split; [reflexivity|]. split; [assumption|]. split; [assumption|].
+      intros ly' Hly'. discriminate.
   - split; [discriminate|]. intros (_ & _ & H & _). apply validate_coords_ok_iff in H. congruence.
 Qed.
 
@@ -402,6 +406,28 @@ Proof.
     + destruct (g_virtual dv); discriminate.
 Qed.
 
+Lemma validate_coords_not_wrap : forall dv kind pts e,
+  validate_coords dv kind pts <> GErr (GWrap e).
+Proof.
+  intros dv kind pts e. unfold validate_coords.
+  destruct (kind =? KATOMS).
+  - destruct (g_max_atoms dv) as [m|].
+    + destruct (m <? zlen pts); [discriminate|].
+      destruct (bad_pairs (g_min_dist dv) 0 pts); [|discriminate].
+      destruct (g_max_radial dv) as [R|].
+      * destruct (far_ids R 0 pts); discriminate.
+      * destruct (g_virtual dv); discriminate.
+    + destruct (g_virtual dv); [|discriminate].
+      destruct (bad_pairs (g_min_dist dv) 0 pts); [|discriminate].
+      destruct (g_max_radial dv) as [R|].
+      * destruct (far_ids R 0 pts); discriminate.
+      * discriminate.
+  - destruct (bad_pairs (g_min_dist dv) 0 pts); [|discriminate].
+    destruct (g_max_radial dv) as [R|].
+    + destruct (far_ids R 0 pts); discriminate.
+    + destruct (g_virtual dv); discriminate.
+Qed.
+
 (** the culprits of a rejected register: atoms are reported unwrapped, traps
     of the layout wrapped; in both cases exactly the violating ones *)
 Lemma register_culprits_exact : forall dv rg,
@@ -449,7 +475,7 @@ Proof.
     + intros k bp H. inversion H; subst. apply coords_distance_error_exact in Ec. tauto.
     + intros k ids H. inversion H; subst. apply coords_radius_error_exact in Ec. tauto.
     + intros k bp H. inversion H; subst.
-      destruct (kind_of_err_is_not_wrap dv KATOMS (r_pts rg) (GDist k bp) Ec).
+      destruct (validate_coords_not_wrap dv KATOMS (r_pts rg) (GDist k bp) Ec).
     + intros k ids H. inversion H; subst.
-      destruct (kind_of_err_is_not_wrap dv KATOMS (r_pts rg) (GRadius k ids) Ec).
+      destruct (validate_coords_not_wrap dv KATOMS (r_pts rg) (GRadius k ids) Ec).
 Qed.
